@@ -179,7 +179,8 @@ class OpenSystem:
 
                 with eigenbasis_of(ham):
                     relaxT = RedfieldRelaxationTensor(ham, sbi,
-                                                    as_operators=as_operators)
+                                        cutoff_time=relaxation_cutoff_time,
+                                        as_operators=as_operators)
 
                     if secular_relaxation:
                         relaxT.secularize()
@@ -218,7 +219,8 @@ class OpenSystem:
 
                 with eigenbasis_of(ham):
                     relaxT = ModRedfieldRelaxationTensor(ham, sbi,
-                                                    as_operators=as_operators)
+                                        cutoff_time=relaxation_cutoff_time,
+                                        as_operators=as_operators)
 
                     if secular_relaxation:
                         relaxT.secularize()
